@@ -38,8 +38,38 @@ def us_of(d):
     return int((d - EPOCH) / US)
 
 
-def mk_datetime(us):
-    return EPOCH + timedelta(microseconds=us)
+# An *instant* of a description / token is an int (µs since the epoch, written as a UTC-aware datetime) or a string
+# `<µs>@n` (the same instant as a naive datetime: the library reads naive as UTC) / `<µs>@o<minutes>` (the same
+# instant in another UTC offset).  Spellings of one instant are one value: the model sees only the µs.
+
+def ival(x):
+    return int(str(x).partition('@')[0])
+
+
+def mk_datetime(x):
+    us, _, rep = str(x).partition('@')
+    d = EPOCH + timedelta(microseconds=int(us))
+    if rep == 'n':
+        return d.replace(tzinfo=None)
+    if rep.startswith('o'):
+        return d.astimezone(timezone(timedelta(minutes=int(rep[1:]))))
+    return d
+
+
+def inst(dt):
+    """the value of a dt description: None | (start µs, end µs)"""
+    return None if dt is None else (ival(dt[0]), ival(dt[1]))
+
+
+SPELLINGS = [('', ''), ('@n', '@n'), ('@o120', '@o120'), ('@o-330', '@n'), ('', '@o345'), ('@o840', '@o-720'), ('@n', '')]
+
+
+def respell(dt, k):
+    """the same time bounds written with other UTC offsets / naive"""
+    if dt is None:
+        return None
+    a, b = SPELLINGS[k % len(SPELLINGS)]
+    return (f'{ival(dt[0])}{a}' if a else ival(dt[0]), f'{ival(dt[1])}{b}' if b else ival(dt[1]))
 
 
 def mk_dt(dt):
@@ -186,11 +216,15 @@ def p_key(s):
     return (float(Fraction(a)), float(Fraction(b)), _optf(c))
 
 
+def p_inst(t):
+    return t if '@' in t else int(t)
+
+
 def p_dt(s):
     if s == '_':
         return None
     a, b = s.split(':')
-    return (int(a), int(b))
+    return (p_inst(a), p_inst(b))
 
 
 def f_(s):
@@ -350,7 +384,7 @@ def same_single(a, b, aux):
         return 'F'
     k = a[0]
     dta, dtb = (a[2], b[2]) if k == 'P' else (a[1], b[1])
-    if dta != dtb:
+    if inst(dta) != inst(dtb):
         return 'F'
     if k in ('L', 'T'):
         return 'T' if geom_fields(a) == geom_fields(b) else 'F'
@@ -405,7 +439,7 @@ def same_any(a, b, aux):
         return 'F'
     if not ma:
         return same_single(a, b, aux)
-    if a[0] != b[0] or a[1] != b[1]:
+    if a[0] != b[0] or inst(a[1]) != inst(b[1]):
         return 'F'
     # members: a one-to-one matching of members the property calls equal => equal;
     # a member that is different from every member of the other => unequal
@@ -465,13 +499,13 @@ def hole_id(h):
     return -1
 
 
-def template(kind, variant, nh, nseq, dt, props):
+def template(kind, variant, nh, nseq, dt, props, dt_obj=None):
     """the shape of the object-state streams: kind x geometry variant, `nh` holes from the pool,
     `nseq` vertices / members"""
     g, ms, _ = G()
     C = g.Coordinate
     holes = [mk_hole(i) for i in range(nh)] if kind in HAS_HOLES else None
-    kw = dict(dt=mk_dt(dt), properties=props)
+    kw = dict(dt=dt_obj if dt_obj is not None else mk_dt(dt), properties=props)
     v = float(variant)
     if kind == 'polygon':
         pts = SEQ_POOL[:max(nseq - 1, 1)]
@@ -580,10 +614,9 @@ def apply_mut(obj, m, inplace=True):
     if p[0] == 'setdt':
         if p[1] == '_':
             return obj.set_dt(None, inplace=inplace)
-        s, e = int(p[1]), int(p[2])
-        if s == e and (s // 7) % 2 == 0:
-            return obj.set_dt(mk_datetime(s), inplace=inplace)       # a datetime becomes an instant
-        return obj.set_dt(mk_dt((s, e)), inplace=inplace)
+        return obj.set_dt(mk_dt((p_inst(p[1]), p_inst(p[2]))), inplace=inplace)     # a TimeInterval argument
+    if p[0] == 'setdtd':
+        return obj.set_dt(mk_datetime(p_inst(p[1])), inplace=inplace)                # a datetime becomes an instant
     if p[0] == 'buffer':
         return obj.buffer_dt(timedelta(microseconds=int(p[1])), inplace=inplace)
     if p[0] == 'strip':
